@@ -815,8 +815,8 @@ def _first_call_in_test(test, helpers, cls, caller):
         if not isinstance(c, ast.Call):
             return False
         nm = _callee_name(c, cls)[0]
-        return nm in helpers and helpers[nm] is not caller and isinstance(helpers[nm], ast.AsyncFunctionDef) == isinstance(e, ast.Await) \
-            and all(_simple_expr(a) for a in c.args) and not c.keywords
+        # (its arguments are evaluated at the same point when the call is hoisted: it is the first thing the test evaluates)
+        return nm in helpers and helpers[nm] is not caller and isinstance(helpers[nm], ast.AsyncFunctionDef) == isinstance(e, ast.Await) and not c.keywords
 
     def walk(holder, field, e):
         if is_helper(e):
@@ -858,8 +858,12 @@ def _inline_in_block(stmts, helpers, caller, cls, rep: Report, failed: set):
             if found is not None:
                 holder, field, inner = found
                 core_call = inner.value if isinstance(inner, ast.Await) else inner
-                tmp = f"arg__{_callee_name(core_call, cls)[0].strip('_')}"
-                if tmp not in _local_names(caller):
+                tmp = f"arg__{_callee_name(core_call, cls)[0].replace('mod:', '').strip('_')}"
+                k_ = 2
+                while tmp in _local_names(caller):
+                    tmp = f"{tmp.rstrip('0123456789_')}_{k_}"
+                    k_ += 1
+                if True:
                     pre_st = ast.copy_location(ast.Assign([ast.Name(tmp, ast.Store())], inner, lineno=st.lineno), st)
                     name = ast.copy_location(ast.Name(tmp, ast.Load()), inner)
                     if isinstance(holder, ast.Module):
